@@ -571,8 +571,8 @@ var All = []Body{
 	{"js-parse-print", true, func(v int, step func()) string {
 		var sb strings.Builder
 		ast, err := js.Parse(parse.NewInputBytes(pick(v,
-			"'use strict';import a,{b as c}from'm';export default class D extends E{static #p=1;get q(){return this.#p}static{f()}}\nfunction*g(h=1,...i){yield*h;for(const j of i){if(j)continue;else break}}var k=async(l)=>await l?.m??n`t${o}`;label:while(x--){try{throw y}catch({z}){}finally{}}",
-			"let a=1,{b,c:[d,,e=2]}=f;a=b?c:d,e**=2;if(a)b;else if(c)d;else{e}switch(a){case 1:default:b}do a++;while(a<10)\nfor(var i=0,j;i<j;i++);for(k in l);new A(...b).c[d](e)`f`;g=function h(){return h}")), js.Options{WhileToFor: v%2 == 1})
+			"/*! lic */'use strict';import a,{b as c}from'm';export default class D extends E{static #p=1;get q(){return this.#p}static{f()}}\nfunction*g(h=1,...i){yield*h;for(const j of i){if(j)continue;else break}}var k=async(l)=>await l?.m??n`t${o}`;label:while(x--){try{throw y}catch({z}){}finally{}}",
+			"/*! banner */\nlet a=1,{b,c:[d,,e=2]}=f;a=b?c:d,e**=2;if(a)b;else if(c)d;else{e}switch(a){case 1:default:b}do a++;while(a<10)\nfor(var i=0,j;i<j;i++);for(k in l);new A(...b).c[d](e)`f`;g=function h(){return h}")), js.Options{WhileToFor: v%2 == 1})
 		step()
 		if err != nil {
 			return "error " + err.Error()
@@ -624,6 +624,128 @@ var All = []Body{
 			fmt.Fprintf(&sb, "%q %v %v|", s, err, err != nil && errors.Is(err, js.ErrInvalidJSON))
 			step()
 		}
+		return sb.String()
+	}},
+	// ---- two instances alive at the same time in one goroutine: what the first one handed out must not change ----
+	{"js-two-asts", true, func(v int, step func()) string {
+		var sb strings.Builder
+		srcs := [][2]string{
+			{"/*! license A */\nvar a = 1;", "/*! license B */\nvar b = 2;/*! c2 */"},
+			{"/*! x */\n/*! y */\n/*! z */\nlet q = [1, 2]; q.push(3);", "/*! w */\nfunction f(){return 1}"},
+		}[v%2]
+		astA, errA := js.Parse(parse.NewInputBytes(pick(0, srcs[0])), js.Options{})
+		if errA != nil {
+			return "error " + errA.Error()
+		}
+		a1 := astA.JSString()
+		step()
+		astB, errB := js.Parse(parse.NewInputBytes(pick(0, srcs[1])), js.Options{})
+		if errB != nil {
+			return "error " + errB.Error()
+		}
+		b1 := astB.JSString()
+		step()
+		a2, b2 := astA.JSString(), astB.JSString()
+		fmt.Fprintf(&sb, "%q %q", a1, b1)
+		if a1 != a2 || b1 != b2 {
+			fmt.Fprintf(&sb, " SELF-CHECK FAILED: the first tree printed %q before and %q after another Parse (second: %q / %q)", a1, a2, b1, b2)
+		}
+		return sb.String()
+	}},
+	{"two-lexers", true, func(v int, step func()) string {
+		var sb strings.Builder
+		type held struct {
+			b []byte
+			s string
+		}
+		var hs []held
+		hold := func(b []byte) {
+			hs = append(hs, held{b, string(b)})
+		}
+		run := func(kind int, src string) {
+			in := parse.NewInputBytes(pick(0, src))
+			switch kind {
+			case 0:
+				l := css.NewLexer(in)
+				for {
+					tt, d := l.Next()
+					hold(d)
+					if tt == css.ErrorToken {
+						break
+					}
+				}
+			case 1:
+				l := html.NewLexer(in)
+				for {
+					tt, d := l.Next()
+					hold(d)
+					hold(l.Text())
+					hold(l.AttrVal())
+					if tt == html.ErrorToken {
+						break
+					}
+				}
+			case 2:
+				l := xml.NewLexer(in)
+				for {
+					tt, d := l.Next()
+					hold(d)
+					hold(l.Text())
+					hold(l.AttrVal())
+					if tt == xml.ErrorToken {
+						break
+					}
+				}
+			case 3:
+				p := json.NewParser(in)
+				for {
+					gt, d := p.Next()
+					hold(d)
+					if gt == json.ErrorGrammar {
+						break
+					}
+				}
+			case 4:
+				l := js.NewLexer(in)
+				for {
+					tt, d := l.Next()
+					hold(d)
+					if tt == js.ErrorToken {
+						break
+					}
+				}
+			case 5:
+				p := css.NewParser(in, false)
+				for {
+					gt, _, d := p.Next()
+					hold(d)
+					for _, val := range p.Values() {
+						hold(val.Data)
+					}
+					if gt == css.ErrorGrammar {
+						break
+					}
+				}
+			}
+		}
+		srcs := []string{"a{b:c d}@media x{e{f:g}}", "<a b='c' d=\"e\">t</a><!--c-->", "<x y='z'>t<![CDATA[u]]></x>", "{\"a\":[1,\"b\"]}", "let a = `t${b}` + /r/g;", "a , b > c{d:e(f) g}"}
+		k1, k2 := v%6, (v/6+v+1)%6
+		run(k1, srcs[k1])
+		n1 := len(hs)
+		step()
+		run(k2, srcs[k2])
+		step()
+		run(k1, srcs[(k1+1)%6]) // the same kind again on other data
+		bad := 0
+		for i, h := range hs {
+			if string(h.b) != h.s {
+				bad++
+				if bad == 1 {
+					fmt.Fprintf(&sb, "SELF-CHECK FAILED: slice %d handed out as %q now reads %q; ", i, h.s, h.b)
+				}
+			}
+		}
+		fmt.Fprintf(&sb, "%d+%d slices held, %d changed", n1, len(hs)-n1, bad)
 		return sb.String()
 	}},
 	// ---- package strconv ----
